@@ -112,7 +112,27 @@ def _pure_expr(a):
     return False
 
 
-def _inlinable(h):
+def _is_generator(h):
+    return any(isinstance(n, (ast.Yield, ast.YieldFrom)) for n in _walk_no_defs(h.node))
+
+
+def _simple_generator(h):
+    """A generator whose yields are statements of their own (`yield x`), with no `yield from`, no value sent in and no `return v`."""
+    for n in _walk_no_defs(h.node):
+        if isinstance(n, ast.YieldFrom):
+            return False
+        if isinstance(n, ast.Yield):
+            p = getattr(n, "_parent", None)
+            if not (isinstance(p, ast.Expr) and p.value is n):
+                return False
+        if isinstance(n, ast.Return) and n.value is not None:
+            return False
+        if isinstance(n, (ast.Try, ast.With)) and any(isinstance(x, ast.Yield) for x in ast.walk(n)):
+            return False  # a consumer that stops early would run the cleanup at another time
+    return True
+
+
+def _inlinable(h, generator=False):
     node = h.node
     if any(d not in ("staticmethod",) for d in h.decorators):
         return False
@@ -125,7 +145,9 @@ def _inlinable(h):
            for d in a.defaults):
         return False  # a mutable default is one object shared by all calls: copying the body would hide that
     for n in ast.walk(node):
-        if isinstance(n, (ast.Yield, ast.YieldFrom, ast.Global, ast.Nonlocal, ast.Lambda)):
+        if isinstance(n, (ast.Global, ast.Nonlocal)):
+            return False
+        if isinstance(n, (ast.Yield, ast.YieldFrom)) and not generator:
             return False
         if n is not node and isinstance(n, (ast.FunctionDef, ast.AsyncFunctionDef, ast.ClassDef)):
             return False
@@ -146,10 +168,12 @@ def _effect_free(h):
         if isinstance(n, ast.Raise):
             return False
         if isinstance(n, ast.Call) and isinstance(n.func, ast.Attribute):
-            if n.func.attr in MUTATORS:
+            if n.func.attr in MUTATORS or n.func.attr in ("write", "writelines", "send", "sendall"):
                 return False
             if isinstance(n.func.value, ast.Name) and n.func.value.id == selfn:
                 return False
+        if isinstance(n, ast.Call) and isinstance(n.func, ast.Name) and n.func.id in h.params:
+            return False  # a callback handed in by the caller is called
     return True
 
 
@@ -232,16 +256,31 @@ def _single_early_use(body, p):
 
 
 class _Rewrite(ast.NodeTransformer):
-    def __init__(self, subst, rename):
+    def __init__(self, subst, rename, qualify=None):
         self.subst = subst
         self.rename = rename
+        self.qualify = qualify or {}  # global name of the helper's module -> alias of that module in the caller's module
 
     def visit_Name(self, n):
         if n.id in self.subst and isinstance(n.ctx, ast.Load):
             return clone(self.subst[n.id])
         if n.id in self.rename:
             return ast.copy_location(ast.Name(id=self.rename[n.id], ctx=n.ctx), n)
+        if n.id in self.qualify and isinstance(n.ctx, ast.Load):
+            return ast.copy_location(ast.Attribute(value=ast.Name(id=self.qualify[n.id], ctx=ast.Load()), attr=n.id, ctx=ast.Load()), n)
         return n
+
+
+def _qualify_map(h, caller_module, bound_names):
+    """Globals of a helper that lives in another module than its caller, as the caller has to spell them."""
+    alias = getattr(h, "_foreign_alias", None)
+    if alias is None or h.module is caller_module:
+        return {}
+    out = {}
+    for nm in list(h.module.funcs) + list(h.module.assigns) + list(h.module.classes):
+        if nm not in bound_names:
+            out[nm] = alias
+    return out
 
 
 def _replace_returns(stmts, make):
@@ -510,7 +549,8 @@ class Inliner:
                         return c
                 # names of the helper's expression that are neither parameters nor its self: globals / builtins, unchanged
                 rename = {hself: caller_self} if hself is not None and hself != caller_self else {}
-                new = _Rewrite(bound, rename).visit(clone(expr))
+                qual = _qualify_map(h, module if module is not None else getattr(func, "module", None), set(bound))
+                new = _Rewrite(bound, rename, qual).visit(clone(expr))
                 for n in ast.walk(new):
                     if isinstance(n, (ast.expr,)):
                         n.lineno, n.col_offset = c.lineno, c.col_offset
@@ -552,6 +592,19 @@ class Inliner:
                                 break
                             if not _pure_callee(node.func):
                                 break
+            if h is not None and h is not func and mode == "iter" and _is_generator(h):
+                # `for x in self.__items():` over a generator helper: the loop body runs where the helper yields
+                relink(h.node, getattr(h.node, "_parent", None))
+                rep = None
+                if _inlinable(h, generator=True) and _simple_generator(h) and not st.orelse and _size(st.body) <= 60:
+                    rep = self._expand(st, call, "genfor", h, func)
+                if rep is not None:
+                    self.count += 1
+                    self.inlined[h.qualname] = self.inlined.get(h.qualname, 0) + 1
+                    rep = self._block(rep, func, depth + 1) if depth + 1 < self.max_depth else rep
+                    out.extend(rep)
+                    continue
+                h = None
             if h is not None and h is not func and _inlinable(h) and not (mode == "expr" and _effect_free(h)):
                 follow = None
                 if mode == "assign" and i + 1 < len(stmts) and isinstance(stmts[i + 1], ast.If):
@@ -673,6 +726,9 @@ class Inliner:
             a = bound[p]
             if p not in stored and isinstance(a, (ast.Name, ast.Constant)):
                 subst[p] = a
+            elif p not in stored and isinstance(a, ast.Lambda) and not (a.args.defaults or a.args.kw_defaults) and not (
+                    (_names(a.body) - {x.arg for x in a.args.args}) & stored):
+                subst[p] = a  # a callback written at the call site: what it reads, it reads when it is called, here as there
             elif p not in stored and isinstance(a, ast.Attribute) and isinstance(a.value, ast.Name) and a.value.id == caller_self:
                 subst[p] = a  # self.x passed through (helpers that rebind it are excluded by `stored`)
             elif p not in stored and _single_early_use(body, p):
@@ -696,7 +752,7 @@ class Inliner:
         for loc in sorted(stored - set(params)):
             if loc in caller_names and loc not in rename and loc not in reusable:
                 rename[loc] = "%s_%s" % (loc, tag)
-        rw = _Rewrite(subst, rename)
+        rw = _Rewrite(subst, rename, _qualify_map(h, func.module, set(params) | stored))
         body = [rw.visit(s_) for s_ in body]
         label = tag
         res = None
@@ -705,7 +761,61 @@ class Inliner:
             lv = InlineLeave()
             lv.label = label
             return lv
-        if mode == "return":
+        if mode == "genfor":
+            whole = label + "g"
+            nyield = [0]
+
+            def leave_lab(lab):
+                lv = InlineLeave()
+                lv.label = lab
+                return lv
+
+            def jumps(stmts, ylab):
+                res = []
+                for s_ in stmts:
+                    if isinstance(s_, ast.Break):
+                        res.append(leave_lab(whole))
+                        continue
+                    if isinstance(s_, ast.Continue):
+                        res.append(leave_lab(ylab))
+                        continue
+                    if isinstance(s_, (ast.For, ast.While, ast.AsyncFor)):
+                        s_.orelse = jumps(s_.orelse, ylab)
+                    elif not isinstance(s_, (ast.FunctionDef, ast.AsyncFunctionDef, ast.ClassDef)):
+                        for owner, fld, lst in _stmt_lists(s_):
+                            setattr(owner, fld, jumps(lst, ylab))
+                    res.append(s_)
+                return res
+
+            def at_yields(stmts):
+                res = []
+                for s_ in stmts:
+                    if isinstance(s_, ast.Expr) and isinstance(s_.value, ast.Yield):
+                        nyield[0] += 1
+                        ylab = "%sy%d" % (label, nyield[0])
+                        val = s_.value.value if s_.value.value is not None else ast.Constant(value=None)
+                        tgt = clone(st.target)
+                        blk = InlineBlock(body=[ast.Assign(targets=[tgt], value=val)] + jumps(clone(st.body), ylab))
+                        blk.label = ylab
+                        blk.helper = h.qualname
+                        res.append(blk)
+                        continue
+                    if isinstance(s_, ast.Return):
+                        res.append(leave_lab(whole))
+                        continue
+                    if not isinstance(s_, (ast.FunctionDef, ast.AsyncFunctionDef, ast.ClassDef)):
+                        for owner, fld, lst in _stmt_lists(s_):
+                            setattr(owner, fld, at_yields(lst))
+                    res.append(s_)
+                return res
+            new = at_yields(body)
+            if not 1 <= nyield[0] <= 4:
+                return None
+            outer = InlineBlock(body=new or [ast.Pass()])
+            outer.label = whole
+            outer.helper = h.qualname
+            rep = pre + [outer]
+        elif mode == "return":
             new = body
             if _falls_through(new):
                 new = new + [ast.Return(value=ast.Constant(value=None))]
@@ -1490,6 +1600,25 @@ class _Subst(ast.NodeTransformer):
 def _beta(root):
     """`(lambda a, b: e)(x, y)` -> e[a:=x, b:=y] when every argument is simple or used once."""
     count = [0]
+    # a local bound once to a lambda and only ever called: the calls are calls of that lambda
+    if isinstance(root, (ast.FunctionDef, ast.AsyncFunctionDef)):
+        relink(root, getattr(root, "_parent", None))
+        nb = _bindings(root)
+        for st in list(_walk_no_defs(root)):
+            if isinstance(st, ast.Assign) and len(st.targets) == 1 and isinstance(st.targets[0], ast.Name) and isinstance(st.value, ast.Lambda) \
+                    and nb.get(st.targets[0].id, 0) == 1 and not (st.value.args.defaults or st.value.args.kw_defaults):
+                nm = st.targets[0].id
+                loads = [n for n in ast.walk(root) if isinstance(n, ast.Name) and n.id == nm and isinstance(n.ctx, ast.Load)]
+                if loads and all(isinstance(getattr(n, "_parent", None), ast.Call) and n._parent.func is n for n in loads) \
+                        and not ((_names(st.value.body) - {x.arg for x in st.value.args.args}) & {k for k, v in nb.items() if v > 1}):
+                    for n in loads:
+                        n._parent.func = clone(st.value)
+                    par = getattr(st, "_parent", None)
+                    for fld in ("body", "orelse", "finalbody"):
+                        lst = getattr(par, fld, None)
+                        if isinstance(lst, list) and st in lst:
+                            lst[lst.index(st)] = ast.copy_location(ast.Pass(), st)
+                    count[0] += 1
 
     class T(ast.NodeTransformer):
         def visit_Call(self, c):
@@ -2264,6 +2393,20 @@ def fold_constants(func_node):
     count = [0]
 
     class T(ast.NodeTransformer):
+        def visit_Subscript(self, n):
+            self.generic_visit(n)
+            if isinstance(n.ctx, ast.Load) and isinstance(n.value, ast.Constant) and isinstance(n.value.value, (str, bytes, tuple)) \
+                    and isinstance(n.slice, ast.Constant) and isinstance(n.slice.value, int):
+                try:
+                    v = n.value.value[n.slice.value]
+                except Exception:
+                    return n
+                if isinstance(n.value.value, bytes):
+                    return n  # indexing bytes gives an int: leave it to the reader
+                count[0] += 1
+                return ast.copy_location(ast.Constant(value=v), n)
+            return n
+
         def visit_BinOp(self, b):
             self.generic_visit(b)
             if isinstance(b.op, ast.Add):
@@ -2278,4 +2421,76 @@ def fold_constants(func_node):
     T().visit(func_node)
     if count[0]:
         relink(func_node, getattr(func_node, "_parent", None))
+    return count[0]
+
+
+def inline_class_constants(module, known_class_names):
+    """Class-level names bound once to an immutable literal (`STRING_TOKENS = ("string", "multiline")`), not known to the rule set
+    and never assigned through an instance or the class, are replaced by their value where methods of the class read them
+    (`self.NAME`, `cls.NAME`, `<Class>.NAME`).  Returns the number of replaced reads."""
+    tree = module.tree
+    count = [0]
+    # every attribute store in the module, by attribute name
+    stored_attrs = set()
+    for n in ast.walk(tree):
+        if isinstance(n, ast.Attribute) and isinstance(n.ctx, (ast.Store, ast.Del)):
+            stored_attrs.add(n.attr)
+    class_bound = {}
+    for st in tree.body:
+        if isinstance(st, ast.ClassDef):
+            for s_ in st.body:
+                tg = None
+                if isinstance(s_, ast.Assign) and len(s_.targets) == 1 and isinstance(s_.targets[0], ast.Name):
+                    tg = s_.targets[0].id
+                elif isinstance(s_, ast.AnnAssign) and isinstance(s_.target, ast.Name) and s_.value is not None:
+                    tg = s_.target.id
+                if tg is not None:
+                    class_bound.setdefault(tg, []).append((st, s_))
+    for name, places in class_bound.items():
+        if len(places) != 1:
+            continue  # redefined in another class of the module (possibly a subclass)
+        cls, st = places[0]
+        if name in known_class_names.get(cls.name, ()) or (name.startswith("__") and name.endswith("__")):
+            continue
+        mangled = "_%s%s" % (cls.name.lstrip("_"), name) if name.startswith("__") else name
+        if name in stored_attrs or mangled in stored_attrs:
+            continue
+        val = st.value
+        if not (_immutable_literal(val, {}) and not isinstance(val, ast.Name)):
+            continue
+        if isinstance(val, ast.Call):
+            continue  # compiled patterns stay where they are (the rules know class-level patterns)
+        # other names of the class body must not shadow it inside methods: only attribute reads are replaced
+        for m in cls.body:
+            if not isinstance(m, (ast.FunctionDef, ast.AsyncFunctionDef)):
+                continue
+            first = m.args.args[0].arg if m.args.args else None
+
+            class T(ast.NodeTransformer):
+                def visit_Attribute(self, a):
+                    self.generic_visit(a)
+                    if isinstance(a.ctx, ast.Load) and a.attr == name and isinstance(a.value, ast.Name) and a.value.id in (first, cls.name, "cls"):
+                        new = clone(val)
+                        for x in ast.walk(new):
+                            if isinstance(x, ast.expr):
+                                x.lineno, x.col_offset = a.lineno, a.col_offset
+                                x.end_lineno, x.end_col_offset = getattr(a, "end_lineno", a.lineno), getattr(a, "end_col_offset", a.col_offset)
+                        count[0] += 1
+                        return new
+                    return a
+
+                def visit_Call(self, c):
+                    self.generic_visit(c)
+                    if any(isinstance(x, ast.Starred) and isinstance(x.value, ast.Tuple) for x in c.args):
+                        args = []
+                        for x in c.args:
+                            if isinstance(x, ast.Starred) and isinstance(x.value, ast.Tuple):
+                                args.extend(x.value.elts)
+                            else:
+                                args.append(x)
+                        c.args = args
+                    return c
+            T().visit(m)
+    if count[0]:
+        relink(tree, None)
     return count[0]
